@@ -17,6 +17,9 @@ import (
 // (it comes from the by-name lookup of a Depends entry).
 type GraphRoles struct {
 	AddEdge  *ssa.Function
+	Setup    *ssa.Function // the edge setup: the caller of the edge writer
+	HasCycle *ssa.Function // the cycle test: the boolean callee of Setup whose positive answer makes it return an error
+	Reset    *ssa.Function // the retry reset: the construction-phase function that zeroes node states
 	Pred     string // adjacency[dependent] = its dependencies   (today: "to")
 	Succ     string // adjacency[dependency] = its dependents    (today: "from")
 	AllNodes []string
@@ -96,6 +99,58 @@ func (e *Env) graphRoles() *GraphRoles {
 		}
 	}
 	g.ok = g.AddEdge != nil && g.Pred != "" && g.Succ != ""
+	if g.AddEdge != nil {
+		for _, ci := range e.StaticCallSites(g.AddEdge) {
+			g.Setup = ci.Parent()
+		}
+	}
+	if g.Setup == nil {
+		g.Setup = e.FnQuiet(schedRel, "(*ExecutionGraph).setup")
+	}
+	if g.Setup != nil {
+		for _, b := range g.Setup.Blocks {
+			rt, ok := b.Instrs[len(b.Instrs)-1].(*ssa.Return)
+			if !ok || len(rt.Results) != 1 {
+				continue
+			}
+			nonNil := false
+			for _, v := range RetVals(rt, 0) {
+				if !ir.IsNilConst(ir.Resolve(v)) {
+					nonNil = true
+				}
+			}
+			if !nonNil {
+				continue
+			}
+			for _, l := range e.DCSBlock(b) {
+				if l.Kind != "val" || !l.Pol {
+					continue
+				}
+				if c, isC := ir.Resolve(l.V).(*ssa.Call); isC && c.Call.StaticCallee() != nil && rootFn(c.Call.StaticCallee()).Package() == sp {
+					g.HasCycle = c.Call.StaticCallee()
+				}
+			}
+		}
+	}
+	if g.HasCycle == nil {
+		g.HasCycle = e.FnQuiet(schedRel, "(*ExecutionGraph).hasCycle")
+	}
+	// the retry reset: reachable from the retry constructor, zeroes a node's state
+	if ctor := e.FnQuiet(schedRel, "NewExecutionGraphForRetry"); ctor != nil {
+		for _, f := range e.staticClosure(ctor) {
+			if rootFn(f).Package() != sp || isAccessor(f) {
+				continue
+			}
+			for _, ev := range e.C.FieldStores(f, "State.Status") {
+				if ev.Zero && len(ir.Loops(f)) > 0 {
+					g.Reset = f
+				}
+			}
+		}
+	}
+	if g.Reset == nil {
+		g.Reset = e.FnQuiet(schedRel, "(*ExecutionGraph).setupRetry")
+	}
 	return g
 }
 
@@ -150,18 +205,31 @@ func (e *Env) boolHelperReturns(h *ssa.Function, want bool) (alts [][]ir.NLit, o
 		if !isR || !ff.Reachable(b) {
 			continue
 		}
-		for _, v := range RetVals(rt, 0) {
-			lits := e.DCSBlock(b)
-			if cb, isC := ir.ConstBool(ir.Resolve(v)); isC {
-				if cb == want {
-					alts = append(alts, lits)
+		// the ways of reaching this return: its reaching condition inside the helper
+		// (a return shared by several case edges is a disjunction), else its dominators
+		var ways [][]ir.NLit
+		if dnf, okRC := ir.ReachingCondition(h.Blocks[0], b, 32); okRC && len(dnf) > 0 && len(ir.Loops(h)) == 0 {
+			for _, cj := range dnf {
+				for _, conj := range ff.ExpandDNFRegion(h.Blocks[0], []ir.Lit(cj)) {
+					ways = append(ways, ir.NormalizeAll(conj))
 				}
-				continue
 			}
-			// a computed verdict: the ways the value can have the wanted polarity
-			// (short-circuit expressions expanded into a disjunction)
-			for _, conj := range ff.ExpandDNF([]ir.Lit{{Cond: v, Pol: want}}) {
-				alts = append(alts, append(append([]ir.NLit{}, lits...), ir.NormalizeAll(conj)...))
+		} else {
+			ways = [][]ir.NLit{e.DCSBlock(b)}
+		}
+		for _, v := range RetVals(rt, 0) {
+			for _, lits := range ways {
+				if cb, isC := ir.ConstBool(ir.Resolve(v)); isC {
+					if cb == want {
+						alts = append(alts, lits)
+					}
+					continue
+				}
+				// a computed verdict: the ways the value can have the wanted polarity
+				// (short-circuit expressions expanded into a disjunction)
+				for _, conj := range ff.ExpandDNF([]ir.Lit{{Cond: v, Pol: want}}) {
+					alts = append(alts, append(append([]ir.NLit{}, lits...), ir.NormalizeAll(conj)...))
+				}
 			}
 		}
 	}
@@ -193,7 +261,7 @@ func (e *Env) expandHelperCalls(lits []ir.NLit, depth int) [][]ir.NLit {
 			continue
 		}
 		alts, ok := e.boolHelperReturns(h, l.Pol)
-		if !ok || len(alts) == 0 || len(alts) > 16 {
+		if !ok || len(alts) == 0 || len(alts) > 32 {
 			continue
 		}
 		rest := append(append([]ir.NLit{}, lits[:i]...), lits[i+1:]...)
